@@ -25,8 +25,12 @@ def file_api(kind, src, tmp, mapping=None, copier=False, defines=None, name="pro
     """Program.assemble / Program.assemble_as_patch on a file; returns (reported, output bytes or None, announced, labels)"""
     from a816.program import Program
     path = os.path.join(tmp, name)
-    with open(path, "w", encoding="utf-8") as f:
-        f.write(src)
+    if isinstance(src, bytes):
+        with open(path, "wb") as f:
+            f.write(src)
+    else:
+        with open(path, "w", encoding="utf-8") as f:
+            f.write(src)
     out = os.path.join(tmp, "out.bin")
     if os.path.exists(out):
         os.remove(out)
@@ -71,8 +75,12 @@ def file_api(kind, src, tmp, mapping=None, copier=False, defines=None, name="pro
 def cli(src, tmp, fmt=None, mapping=None, copier=False, defines=None, name="prog.s", timeout=60):
     """x816 command line in a subprocess (cwd = tmp, package taken from the /repo working tree)"""
     path = os.path.join(tmp, name)
-    with open(path, "w", encoding="utf-8") as f:
-        f.write(src)
+    if isinstance(src, bytes):
+        with open(path, "wb") as f:
+            f.write(src)
+    else:
+        with open(path, "w", encoding="utf-8") as f:
+            f.write(src)
     out = os.path.join(tmp, "cli_out.bin")
     if os.path.exists(out):
         os.remove(out)
